@@ -478,8 +478,11 @@ char *FUNC(generate)(jwt_common_t *__cmd)
 	if (jwt->alg == JWT_ALG_NONE && jwt->key)
 		jwt->alg = jwt->key->alg;
 
-	if (jwt_head_setup(jwt))
-		return NULL; // LCOV_EXCL_LINE
+	if (jwt_head_setup(jwt)) {
+		jwt_write_error(jwt, "Error setting up header");
+		jwt_copy_error(__cmd, jwt);
+		return NULL;
+	}
 
 	out = jwt_encode_str(jwt);
 	jwt_copy_error(__cmd, jwt);
